@@ -421,3 +421,6 @@ func atomTerm(v value) *smt.Term {
 	}
 	return nil
 }
+
+// strPanic boxes a Go string as the interface value a target panic carries.
+func strPanic(msg string) value { return iface{t: types.Typ[types.String], v: msg} }
